@@ -894,11 +894,20 @@ func (env *Zlisp) FindObject(name string) (Sexp, bool) {
 
 func (env *Zlisp) Apply(fun *SexpFunction, args []Sexp) (Sexp, error) {
 	//VPrintf("\n\n debug Apply not working on user funcs: fun = '%#v'   and args = '%#v'\n\n", fun, args)
+	callState := env.captureControlState()
 	if fun.user {
-		return fun.userfun(env, fun.name, args)
+		// a Go builtin may call back into the VM (eval, map, a
+		// selector argument); when it fails in there, the VM is
+		// still inside the aborted call. Put it back, as for a
+		// compiled function below.
+		res, err := fun.userfun(env, fun.name, args)
+		if err != nil {
+			env.restoreControlState(callState)
+			return SexpNull, err
+		}
+		return res, nil
 	}
 
-	callState := env.captureControlState()
 	env.pc = -2
 	for i, expr := range args {
 		if fun.IsLazyCallArg(i) {
